@@ -28,6 +28,7 @@ def segment_edits(ref, typ, segs, with_last=True, with_dstar=True):
         vals = [v for v in key_values(ref, typ, i) if v != segs[i] and v not in ref.alias]
         other = vals[0] if vals else segs[i] + "2"
         out.append(("seg", i, segs[i] + "," + other))
+        out.append(("seg", i, segs[i] + ", " + other))       # the documented spelling with a blank after the comma
         out.append(("seg", i, segs[i] + ",bogus"))
         out.append(("seg", i, "bogus,zz8"))                  # two alternatives that cannot be typed
         out.append(("seg", i, segs[i] + ",*"))               # overlapping alternatives: results must still be unique
